@@ -46,6 +46,31 @@ CLAIMED = {
         note="Trusted: Lean kernel; gen_commands.py translator; reference/commands.json (reviewed snapshot); hand model of _load tied by correspondence; Session-Id arguments passed as bytes (generation is C16). Known findings: base ASA/RAA built without Application-ID (two-step usage), S6b AAAnswer dead mandatory key.",
         technique="Lean 4 proof (list induction over the _load loop; decide +kernel over regenerated tables) + differential correspondence",
         design="4 C09"),
+    "C11": dict(
+        text="Lean: model of the message container (list, named view with structural (base, suffix) names, Message Length) with append/extend/pop/cleanup/avps-setter/item assignment/key renaming/update_avp/refresh/in-place resize; theorem by induction over EVERY operation sequence: distinct listed objects, distinct names, one name per listed object and none for unlisted ones, length = 20 + padded sizes; has_avp agrees with the views; order preservation per operation; pop removes the named object. Tie: exhaustive operation sequences (length <= 3 over 25 operations, length 4 over a reduced alphabet; thorough deeper) plus random sequences to length 40 on generic and typed messages, real object compared with the model state after every step and checked against the coherence specification by object identity.",
+        note="Trusted: Lean kernel; hand model tied by per-step correspondence; objects handed to operations are new and pairwise distinct (aliasing the same AVP object twice is outside the model); GroupedType's identical scheme is exercised only through C01 (data consistency).",
+        technique="Lean 4 proof (inductive invariant over operation sequences) + exhaustive small-alphabet differential correspondence",
+        design="4 C11"),
+    "C12": dict(
+        text="Lean: model of decorate_answer as four steps; theorems for every answer/request: decoration always succeeds for an answer with R clear; Application-ID, Hop-by-Hop, End-to-End and (when the request has one) Session-Id are the request's, a missing Session-Id AVP is added; for an answer arriving with E clear the E flag is set iff the handler's Result-Code is in the numeric 3xxx/4xxx/5xxx family (via C17 for all codes), a preset E flag is kept; no Result-Code next to an Experimental-Result; Message Length matches the final content. Tie: real decorate_answer on generic and typed answers over every Result-Code 0..6999 (thorough 0..65535) plus boundary 32-bit codes x Session-Id residues/absence x Experimental-Result x preset E.",
+        note="Trusted: Lean kernel; abstract answer state (other AVPs as a padded size) tied by correspondence; the message placed on the send queue is the returned object (C13).",
+        technique="Lean 4 proof (case analysis + C17 family lemma) + exhaustive-over-codes differential correspondence",
+        design="4 C12"),
+    "C13": dict(
+        text="Lean: route table as nested insertion-ordered dictionaries; theorems: after any registration history dispatch returns the handler registered last for exactly that (Application-ID, command code) pair (other pairs, incl. the same code under another application, untouched); callback_route runs that handler and sends exactly one message for every outcome {answer, None, wrong type, standard exception}; the error answer is 5012 with the request's identifiers and Session-Id, local origin, requester as destination. Tie: real Bromelia.callback_route with an in-process worker over random route tables and outcomes.",
+        note="Trusted: Lean kernel; in-process FakeWorker instead of multiprocessing workers, rate-limiting barriers replaced by no-ops; requests carry Session-Id/Origin AVPs (guard of the error path); handlers raising BaseException subclasses are outside the statement's outcomes.",
+        technique="Lean 4 proof (assoc-list lemmas, induction over registration history) + differential correspondence",
+        design="4 C13"),
+    "C16": dict(
+        text="Lean: Session-Id generation as a counter that only increases; theorems for every history of generations and bulk origin updates with any identities at any rate: generated (high, low) pairs — hence Session-Ids — are pairwise distinct, the i-th id carries counter start+i+1 (no restart on identity switch), the text is identity;init;counter;bromelia and starts with the identity. Tie: long histories with a scripted clock through SessionIdAVP, AcctMultiSessionIdAVP, typed messages and update_avps; all ids of a run checked for distinctness/form and compared with the model sequence; bytes carried unchanged.",
+        note="Trusted: Lean kernel; str formatting of the id; datetime rebound in bromelia._internal_utils; counter overflow beyond 32 bits not modelled.",
+        technique="Lean 4 proof (monotone counter invariant) + differential correspondence with scripted clock",
+        design="4 C16"),
+    "C19": dict(
+        text="Lean: model of configuration validation and of the YAML step; theorems: accepted => every Connection field is exactly the configured value and mode/transport/addresses/timeout are in range; a complete configuration is accepted or rejected with InvalidConfigKey/InvalidConfigValue; unknown keys and invalid values are never accepted; accept/reject, error class and result are invariant under every permutation of the keys; YAML: one configuration per entry in order, case-normalised, TCP by default per entry. Tie: every key x value alphabet through three entry points, unknown keys, random combinations and key orders, caller's dict unchanged, YAML lists of 1..4 entries.",
+        note="Trusted: Lean kernel; value abstraction (what validation looks at) tied by correspondence; ipaddress.IPv4Address cross-checked by Model/Ipv4.lean; PyYAML; Diameter(config=) only for configurations whose unchecked fields are ordinary (base-message construction is outside the property).",
+        technique="Lean 4 proof (permutation invariance, lookup lemmas) + differential correspondence",
+        design="4 C19"),
 }
 
 NOT_YET = {
